@@ -1,9 +1,10 @@
 """C03 — HD key derivation conforms to BIP32; public and private derivation agree."""
-import hashlib, hmac
+import hashlib, hmac, os
 from core import Case
 
 PROP = 'C03'
-COQ_FILES = ['Extract/C03.v', 'Proofs/Bip32Glue.v', 'Properties/C03.v']
+COQ_FILES = ['Extract/C03.v', 'Proofs/Bip32Glue.v', 'Proofs/Bip32Session.v', 'Properties/C03.v']
+ESCALATE_CAP = 1500
 DRIVER = 'c03'
 IMPL = 'harness/impl/c03_impl.py'
 ALLOWED_AXIOMS = []
@@ -25,15 +26,36 @@ ASSUMPTIONS = [
     '(decompress o compress = id on curve points needs primality of p: C04); Python int() is modelled for ASCII items up to 4300 '
     'characters; uncompressed HD keys (compressed=False, the library warns they are non-standard), path_expand/wallet path templates '
     '(C09), non-bitcoin networks and import validation of extended-key strings (C12) are outside this model',
+    'sessions (many calls on ONE HDKey object and on its public() copies / children): lib_session is a fold in which every request '
+    'names the object it acts on; derivation_session_is_function / derivation_session_repeatable / public_copy_never_private say that '
+    'every answer is the stateless lib_* function of the named object\'s key material, which never changes, and that nothing obtained '
+    'from a public-only object carries or needs private material. The model has no hidden state by construction; that the LIBRARY has '
+    'none is tied (a) statically: what the derivation methods, HDKey.__init__, public(), public_master, network_change write is re-read '
+    'from the AST on every run and proved equal to the model\'s state (theorem source_is_stateless: no writes in the derivation methods, no '
+    'cache attribute, deepcopy + cleared private fields), (b) dynamically: whole sessions are run on one live object per session and '
+    'compared step by step (named object after the call, returned object) with the fold and with an independent BIP32 oracle. The '
+    'wallet settings network / witness_type / multisig that network_change and public_master write on self are modelled as they are '
+    '(public_master(multisig=True) marks the key as multisig for later calls; multisig=False does not unmark it); they select the account '
+    'path and version bytes only. wif(child_index=n) is modelled as repaired by fixes/C03-8 (an export without side effect); the '
+    'requests that pass child_index are generated when VERIF_C03_FIX8=1 (the code before the repair stores n in the object: finding 8). '
+    'Not in the sessions: key_type single, uncompressed keys; network names other than bitcoin, '
+    'testnet, litecoin (frozen SLIP-44 coin types and BIP32 version bytes in harness/props/c03.py)',
     'lib_is_spec_sound needs public start keys with coordinates in [0,p) and a non-empty chain code; whether the library rejects a '
     'public key that is off the curve is left to fastecdsa (modelled: congruence test after reduction mod p)',
 ]
 RULE = ('corpus (BIP32 test vectors 1-4, keys with leading-zero secrets), seeds of every length 16..64, boundary indices '
         '{0,1,2^31-1,2^31,2^31+1,2^32-1,2^32} x every marker spelling x m/M/no prefix x private/public/xprv-string/xpub-string start, '
         'every split point of random mixed paths of depth 0..10, direct child_private/child_public calls, malformed path strings; '
+        'sessions of 6..40 calls on one object created from seed / passphrase / fields / xprv / xpub strings / from_wif with every network, '
+        'witness type and multisig setting: derive - public() - same path in the same and in other spellings - original again, '
+        'child_private/child_public with the same indices before and after public(), child then parent then child.public(), '
+        'public_master / public_master_multisig with every argument, network_change and every export between derivations, random sessions; '
         'non-trivial = the implementation returned a key; distinct by request')
 
 VPRV, VPUB = '0488ade4', '0488b21e'
+# fixes/C03-8 (wif(child_index=n) no longer stores n in the key object): '1' once the repair is in /repo.  With '0' the
+# requests that call wif() with the child_index argument are not generated (the unrepaired code fails them: finding 8).
+FIX8 = os.environ.get('VERIF_C03_FIX8', '1') == '1'
 
 # ---------------------------------------------------------------- independent BIP32 (from the BIP text)
 P = 2 ** 256 - 2 ** 32 - 977
@@ -248,7 +270,9 @@ def key_of_tok(t):
     if p[0] in ('seed', 'seedpub'):
         x = master(bytes.fromhex(p[1]))
         return x.neuter() if (x is not None and p[0] == 'seedpub') else x
-    if p[0] == 'xstr':
+    if p[0] == 'phrase':
+        return master(bytes.fromhex(p[3]))
+    if p[0] in ('xstr', 'xwif'):
         p = p[2:]
     kind, k, c, d, f, i = p
     c = b'' if c == '-' else bytes.fromhex(c)
@@ -481,17 +505,452 @@ def gen_cases(rng, tier):
         st = 'pub:%s:%s:0:00000000:0' % ((b'\2' + xb).hex(), base.c.hex())
         add_derive(cs, 'off_curve', st, '0', v=vers())
         add_derive(cs, 'off_curve', st, 'm', v=vers())
+    # --- wif(child_index=n): the export with another child number; the key keeps its own
+    if FIX8:
+        for x in (base, child):
+            for st in start_forms(x):
+                for n in ['-', 0, 1, child.idx, H31, (1 << 32) - 1, 1 << 32, -1, rng.randrange(1 << 32)]:
+                    for a in (0, 1):
+                        cs.append(Case('wif_child_index', 'wifidx %s %s %d %s %s' % (st, n, a, VPRV, VPUB), meta=('wifidx', st, n, a)))
+    # --- sessions: sequences of calls on ONE object and on the objects derived from it
+    cs += gen_sessions(rng, big)
+    return cs
+
+
+# ---------------------------------------------------------------- sessions on one HDKey object
+# Frozen protocol constants (never read from /repo): SLIP-44 coin types; BIP32 / chainparams version bytes of the
+# legacy extended keys (xprv/xpub, tprv/tpub, Ltpv/Ltub).
+NETS = {'bitcoin': (0, '0488ade4', '0488b21e'), 'testnet': (1, '04358394', '043587cf'), 'litecoin': (2, '019d9cfe', '019da462')}
+# BIP44 / BIP45 / BIP48 / BIP49 / BIP84 purposes by (witness type, multisig)
+PURPOSE = {('l', 0): 44, ('p', 0): 49, ('s', 0): 84, ('l', 1): 45, ('p', 1): 48, ('s', 1): 48}
+EXPORTS = ['wif', 'wifpub', 'wifprv', 'wifkey', 'dict', 'dictprv', 'json', 'repr', 'addr', 'fp', 'hash']
+
+
+def ser_net(x, private, net):
+    if not (0 <= x.depth < 256 and 0 <= x.idx < (1 << 32)):
+        return 'ERR'
+    head = x.depth.to_bytes(1, 'big') + x.pfp + x.idx.to_bytes(4, 'big') + x.c
+    if private:
+        return b58check(bytes.fromhex(NETS[net][1]) + head + b'\0' + x.k.to_bytes(32, 'big'))
+    return b58check(bytes.fromhex(NETS[net][2]) + head + ser_p(x.K))
+
+
+class SObj:
+    """an HDKey object as BIP32 sees it: the extended key, plus the wallet settings the API documents"""
+
+    def __init__(self, x, net, wit, multi):
+        self.x, self.net, self.wit, self.multi = x, net, wit, multi
+
+    def show(self, w):
+        x = self.x
+        return ' '.join([('%064x' % x.k) if x.k is not None else '-', ser_p(x.K).hex(), x.c.hex() or '-', str(x.depth), str(x.idx),
+                         x.pfp.hex() or '-', 'x' if not w else ser_net(x, True, self.net) if x.k is not None else '-',
+                         ser_net(x, False, self.net) if w else 'x', self.net, self.wit, str(self.multi)])
+
+
+def account_path(o, account, purpose):
+    """the account-level (last hardened) node of the wallet structure: BIP44/49/84 m/purpose'/coin'/account',
+    BIP45 m/45', BIP48 m/48'/coin'/account'/script' (1 = p2sh-segwit, 2 = segwit)"""
+    pur = purpose or PURPOSE[(o.wit, o.multi)]
+    coin = NETS[o.net][0]
+    if o.multi and o.wit == 'l':
+        idx = [pur]
+    elif o.multi:
+        idx = [pur, coin, account, 1 if o.wit == 'p' else 2]
+    else:
+        idx = [pur, coin, account]
+    if any(not 0 <= i < H31 for i in idx):
+        return None
+    return [i + H31 for i in idx]
+
+
+class SessionOracle:
+    """evaluates a session step by step: the answers BIP32 (and the documented settings semantics) define"""
+
+    def __init__(self, key_tok, cfg_tok):
+        cfg = cfg_tok.split(',')
+        x = key_of_tok(key_tok)
+        self.valid = x is not None and x != 'offcurve'
+        if self.valid:
+            self.slots = [SObj(x, cfg[0], cfg[4], int(cfg[5]))]
+            self.pub_only = [x.k is None]          # slots that hold public-only objects by construction
+
+    def step(self, st):
+        """(answer, description of the call, named object is public-only, the call needs private material)"""
+        slots, pub_only = self.slots, self.pub_only
+        f = st.split(',')
+        slot, w, op = int(f[0]), f[1] == '1', f[2:]
+        o = slots[slot] if slot < len(slots) else None
+        if o is None:
+            slots.append(None)
+            pub_only.append(False)
+            return ('T none R FAIL', 'step on an object that does not exist', False, False)
+        kind = op[0]
+        res, what, needs_private = 'FAIL', kind, False
+        if kind == 'p':
+            path = bytes.fromhex(op[1] if op[1] != '-' else '').decode('ascii')
+            what = 'subkey_for_path(%r)' % (path.split('/') if op[2] == 'l' else path)
+            pp = parse_path(path)
+            if pp is not None:
+                needs_private = any(i >= H31 for i in pp[1])
+                if not pp[1]:
+                    res = o.x.neuter() if (pp[0] and o.x.k is not None) else 'SELF'
+                else:
+                    res = derive(o.x, pp[0], pp[1]) or 'FAIL'
+        elif kind == 'cpriv':
+            i, h = int(op[1]), op[2] == '1'
+            what, needs_private = 'child_private(%d, hardened=%s)' % (i, h), True
+            if o.x.k is not None and 0 <= i < (1 << 32):
+                res = ckd(o.x, i + H31 if (h and i < H31) else i) or 'FAIL'
+        elif kind == 'cpub':
+            i = int(op[1])
+            what, needs_private = 'child_public(%d)' % i, i >= H31
+            if 0 <= i < H31:
+                res = ckd(o.x.neuter(), i) or 'FAIL'
+        elif kind == 'pub':
+            what, res = 'public()', o.x.neuter()
+        elif kind == 'pm':
+            account, purpose = int(op[1]), (None if op[2] == '-' else int(op[2]))
+            if op[3] == '1':
+                o.multi = 1
+            if op[4] != '-':
+                o.wit = op[4]
+            what = '%s(account_id=%d, purpose=%s, multisig=%s, witness_type=%s, as_private=%s)' % (
+                'public_master_multisig' if op[6] == 'mm' else 'public_master', account, purpose, op[3], op[4], op[5])
+            needs_private = True
+            idx = account_path(o, account, purpose)
+            if idx is not None:
+                y = derive(o.x, False, idx)
+                res = 'FAIL' if y is None else (y if op[5] == '1' else y.neuter())
+        elif kind == 'net':
+            what, res = 'network_change(%r)' % op[1], 'SELF'
+            assert NETS[op[1]] == (int(op[2]), op[3], op[4])
+            o.net = op[1]
+        elif kind == 'exp':
+            what, res = 'export ' + ' '.join(op[1:]), 'SELF'
+        if isinstance(res, XK):
+            n = SObj(res, o.net, o.wit, o.multi)
+            slots.append(n)
+            pub_only.append(res.k is None)
+            res = 'NEW ' + n.show(w)
+        else:
+            slots.append(None)
+            pub_only.append(False)
+        return ('T %s R %s' % (o.show(False), res), what, pub_only[slot], needs_private)
+
+
+def session_eval(req):
+    """one (answer, ...) tuple per step; None when the start key itself is invalid"""
+    t = req.split(' ')
+    so = SessionOracle(t[1], t[2])
+    if not so.valid:
+        return None
+    return [so.step(st) for st in t[3:]]
+
+
+def session_verdict(req, out, exp=False):
+    """None, or how the implementation's session answer violates the property"""
+    if exp is False:
+        exp = session_eval(req)
+    if exp is None:
+        return None if out == 'ERR' else 'session on an invalid start key answered %s' % out[:80]
+    got = out.split(' | ') if exp else []
+    if out == 'ERR' or len(got) != len(exp):
+        return 'session of %d steps on a valid start key answered %s' % (len(exp), out[:120])
+    for j, (g, (e, what, pub, needs)) in enumerate(zip(got, exp)):
+        if g == e:
+            continue
+        slot = req.split(' ')[3 + j].split(',')[0]
+        where = 'step %d: %s on object %s%s' % (j, what, slot, ' (public-only)' if pub else '')
+        gr = g.split(' R ')[-1]
+        if pub and gr.startswith('NEW ') and gr.split(' ')[1] not in ('-', 'LEAK'):
+            return '%s returned PRIVATE material: %s' % (where, gr[:110])
+        if pub and needs and not gr.startswith('FAIL'):
+            return '%s needs private material and must fail, returned: %s' % (where, gr[:110])
+        if g.split(' R ')[0] != e.split(' R ')[0]:
+            return '%s changed the object it was called on: %s, expected %s' % (where, g.split(' R ')[0][2:150], e.split(' R ')[0][2:150])
+        return '%s gives %s, BIP32 defines %s' % (where, gr[:160], e.split(' R ')[-1][:160])
+    return None
+
+
+def spell_path(rng, idxs, prefix=None, force_marker=None):
+    items = [spell(rng, i, force_marker) for i in idxs]
+    if prefix is None:
+        prefix = rng.choice(['m', 'm', '', '']) if items else 'm'
+    return '/'.join(([prefix] if prefix else []) + items)
+
+
+class SessionBuilder:
+    """builds the request line; slot numbers as the protocol defines them (0 = start, k+1 = result of step k)"""
+
+    def __init__(self, rng, key_tok, net, wit, multi, wevery=3):
+        self.rng, self.key, self.cfg = rng, key_tok, (net, wit, multi)
+        self.steps, self.wevery, self.exp = [], wevery, []
+        self.oracle = SessionOracle(key_tok, '%s,%d,%s,%s,%s,%d' % ((net,) + NETS[net] + (wit, multi)))
+        assert self.oracle.valid
+
+    def add(self, slot, *op, w=None):
+        if w is None:
+            w = self.rng.randrange(self.wevery) == 0
+        self.steps.append('%d,%d,%s' % (slot, 1 if w else 0, ','.join(str(a) for a in op)))
+        self.exp.append(self.oracle.step(self.steps[-1]))
+        return len(self.steps)                 # the slot of the object this step returns
+
+    def alive(self, slot):
+        return slot < len(self.oracle.slots) and self.oracle.slots[slot] is not None
+
+    def path(self, slot, idxs, prefix=None, marker=None, form=None, w=None):
+        p = spell_path(self.rng, idxs, prefix, marker)
+        return self.add(slot, 'p', hp(p), form or self.rng.choice('sssl'), w=w)
+
+    def raw_path(self, slot, p, form='s', w=None):
+        return self.add(slot, 'p', hp(p), form, w=w)
+
+    def net(self, slot, name):
+        return self.add(slot, 'net', name, *NETS[name])
+
+    def pm(self, slot, account=0, purpose='-', multi='-', wit='-', as_private=0, via='m'):
+        return self.add(slot, 'pm', account, purpose, multi, wit, as_private, via)
+
+    def req(self):
+        net, wit, multi = self.cfg
+        return 'sess %s %s,%d,%s,%s,%s,%d %s' % (self.key, net, NETS[net][0], NETS[net][1], NETS[net][2], wit, multi, ' '.join(self.steps))
+
+
+def session_starts(rng, x, net):
+    """the same key as start object in every form the API accepts"""
+    out = [fields_of(x.neuter(), False), 'xstr:%s:%s' % (ser_net(x, False, net), fields_of(x.neuter(), False))]
+    if x.k is not None:
+        out += [fields_of(x, True), 'xstr:%s:%s' % (ser_net(x, True, net), fields_of(x, True)),
+                'xwif:%s:%s' % (ser_net(x, True, net), fields_of(x, True))]
+    return out
+
+
+MNEMONIC = 'abandon abandon abandon abandon abandon abandon abandon abandon abandon abandon abandon about'
+MNEMONIC2 = 'legal winner thank year wave sausage worth useful legal winner thank yellow'
+
+
+def phrase_tok(words, password):
+    seed = hashlib.pbkdf2_hmac('sha512', words.encode(), b'mnemonic' + password.encode(), 2048)        # BIP39
+    return 'phrase:%s:%s:%s' % (words.encode().hex(), password.encode().hex() or '-', seed.hex()), master(seed)
+
+
+def gen_sessions(rng, big):
+    cs = []
+
+    def emit(kind, b):
+        cs.append(Case(kind, b.req(), meta=('sess', b.exp)))
+
+    def start(i):
+        """(token, XK, net, wit, multi): start objects of every form, settings of every kind"""
+        net = ['bitcoin', 'testnet', 'litecoin'][i % 3] if i % 4 else 'bitcoin'
+        wit, multi = 'lps'[(i // 2) % 3] if i % 5 == 0 else 'l', 1 if i % 7 == 3 else 0
+        form = i % 9
+        if form == 0:
+            seed = rand_bytes(rng, rng.randrange(16, 65))
+            return 'seed:' + seed.hex(), master(seed), net, wit, multi
+        if form == 1:
+            tok, x = phrase_tok(rng.choice([MNEMONIC, MNEMONIC2]), rng.choice(['', 'TREZOR', 'pw %d' % i]))
+            return tok, x, net, wit, multi
+        if form == 8:
+            seed = rand_bytes(rng, 32)
+            return 'seedpub:' + seed.hex(), master(seed).neuter(), net, wit, multi
+        x = master(rand_bytes(rng, 32))
+        if form in (3, 5, 6):
+            x = ckd(ckd(x, rng.choice([H31, 44 + H31, 7])), rng.choice([0, 1, H31 + 2]))
+        # fields / extended-key string / from_wif, private and public
+        k = {2: 2, 3: 3, 4: 4, 5: 2, 6: 0, 7: 1}[form]
+        return session_starts(rng, x, net)[k], (x if k >= 2 else x.neuter()), net, wit, multi
+
+    nstart = 0
+
+    def fresh(private=True):
+        nonlocal nstart
+        nstart += 1
+        while private and nstart % 9 in (6, 7, 8):
+            nstart += 1
+        tok, x, net, wit, multi = start(nstart)
+        return SessionBuilder(rng, tok, net, wit, multi), x
+
+    idx_pool = [0, 1, 2, 5, H31 - 1, H31, H31 + 1, 44 + H31, (1 << 32) - 1]
+
+    # --- derive from the private object, take a public() copy, ask the copy for the same paths (same spelling, other
+    #     spelling, list form, relative), then the original again; every path kind: hardened, plain, mixed, deep
+    for rep in range(6 if big else 2):
+        paths = [[H31], [0, 1], [44 + H31, H31, H31 + rep], [5, H31 - 1, 7], [rng.choice(idx_pool), rng.choice(idx_pool)],
+                 [rng.randrange(H31) for _ in range(rng.randrange(1, 5))]]
+        for marker in ("'", 'h', 'H', 'p', 'P')[: 5 if big else 2 + rep]:
+            b, x = fresh()
+            for q in paths:
+                b.path(0, q, 'm', marker, 's')
+            pub = b.add(0, 'pub', w=True)
+            for q in paths:
+                b.path(pub, q, 'm', marker, 's', w=True)           # literally the same strings as before the copy
+            for q in paths:
+                b.path(pub, q)                                     # any other spelling / form
+            for q in paths[:3]:
+                b.path(0, q, 'm', marker, 's')                     # the original still derives privately
+            b.raw_path(pub, 'm', w=True)
+            b.raw_path(0, 'm', w=True)
+            b.raw_path(0, 'M', w=True)
+            emit('sess_public_copy', b)
+    # --- child_private / child_public on one object, then on its public copy, same indices
+    for rep in range(8 if big else 3):
+        b, x = fresh()
+        idxs = [0, rng.choice(idx_pool), rng.randrange(20), H31 + rng.randrange(3)]
+        for i in idxs:
+            b.add(0, 'cpriv', i, 0)
+            if i < H31:
+                b.add(0, 'cpriv', i, 1)
+            b.add(0, 'cpub', i)
+        pub = b.add(0, 'pub')
+        for i in idxs:
+            b.add(pub, 'cpub', i, w=True)
+            b.add(pub, 'cpriv', i, rng.randrange(2))
+            b.path(pub, [i])
+            b.add(0, 'cpub', i)
+            b.add(0, 'cpriv', i, 0, w=True)
+        emit('sess_child_calls', b)
+    # --- children: derive from a child, from its parent again, from the child's public copy, and compare the long way
+    for rep in range(8 if big else 3):
+        b, x = fresh()
+        a, c, d = rng.choice([H31, 44 + H31, 3]), rng.choice([0, H31 + 1, 9]), rng.randrange(H31)
+        ch = b.path(0, [a])
+        g1 = b.path(ch, [c, d], '')
+        b.path(0, [a, c, d], w=True)
+        g2 = b.path(ch, [c], 'm')
+        b.path(g2, [d], rng.choice(['', 'm']), w=True)
+        cp = b.add(ch, 'pub')
+        b.path(cp, [c, d], w=True)
+        b.path(cp, [d])
+        b.path(cp, [d + H31 if d + H31 < (1 << 32) else H31])
+        b.path(0, [a], 'M')
+        b.path(0, [a, c, d], 'M')
+        b.path(ch, [c, d], 'M', w=True)
+        b.raw_path(ch, 'm')
+        b.path(0, [a, c], w=True)
+        b.add(g1, 'cpriv', 0, 1)
+        b.add(cp, 'cpriv', 0, 1)
+        emit('sess_children', b)
+    # --- account helpers: public_master / public_master_multisig with every argument, before and after public()
+    for rep in range(10 if big else 4):
+        b, x = fresh()
+        b.pm(0)
+        b.pm(0, account=rng.randrange(1, 5))
+        b.pm(0, as_private=1)
+        b.pm(0, account=rep, purpose=rng.choice([44, 49, 84, 99, 0]))
+        pub = b.add(0, 'pub')
+        b.pm(pub)
+        b.pm(pub, as_private=1)
+        w = 'lps'[rep % 3]
+        b.pm(0, wit=w, as_private=rep % 2)
+        b.pm(0, account=2, multi=0)
+        if rep % 2:
+            b.pm(0, account=1, multi=1, wit=rng.choice(['-', 'p', 's']), via=rng.choice(['m', 'mm']))
+            b.pm(0, account=1)                                       # the key now is a multisig key
+            b.pm(0, account=1, multi=0, as_private=1)
+        acc = b.pm(0, account=3, as_private=1)
+        b.path(acc, [0, rep])
+        b.pm(0, account=3)
+        b.pm(0, account=H31)
+        b.pm(0, account=-1)
+        b.pm(0, purpose=-5)
+        b.raw_path(0, 'm', w=True)
+        emit('sess_account', b)
+    # --- network_change and exports between derivations
+    for rep in range(8 if big else 3):
+        b, x = fresh()
+        q = [rng.choice([H31, 1]), rep]
+        c1 = b.path(0, q, w=True)
+        b.net(0, ['litecoin', 'testnet', 'bitcoin'][rep % 3])
+        b.path(0, q, w=True)
+        b.add(c1, 'exp', 'wif', w=True)
+        pub = b.add(0, 'pub', w=True)
+        b.net(pub, ['testnet', 'bitcoin', 'litecoin'][rep % 3])
+        b.add(0, 'exp', rng.choice(EXPORTS), w=True)
+        b.path(pub, [1, 2], w=True)
+        b.pm(0, as_private=rep % 2)
+        for e in rng.sample(EXPORTS, 4):
+            t = rng.choice([0, pub, c1])
+            b.add(t, 'exp', e)
+            b.path(t, [rng.randrange(3)], w=True)
+        if FIX8:
+            for t in (0, pub, c1):
+                b.add(t, 'exp', 'wifidx', rng.choice([1, 2, 7, H31 + 1]), w=True)
+                b.raw_path(t, 'm', w=True)
+                b.path(t, [1], w=True)
+        emit('sess_network_exports', b)
+    # --- random sessions
+    for rep in range(300 if big else 36):
+        b, x = fresh(private=False)
+        pool = [[rng.choice(idx_pool + [rng.randrange(H31), rng.randrange(20)]) for _ in range(rng.randrange(1, 4))] for _ in range(2)]
+        pool += [pool[0][:1], pool[0] + [rng.randrange(4)], pool[1] + [rng.choice(idx_pool)]]
+        live, used = [0], []
+        for _ in range(rng.randrange(6, 15)):
+            t = rng.choice(live + [0, live[-1]])
+            r = rng.random()
+            if r < 0.2 and used:
+                n = b.raw_path(t, *rng.choice(used))                 # literally a request made before, on this or another object
+            elif r < 0.45:
+                n = b.path(t, rng.choice(pool), rng.choice(['m', 'm', '', '', 'M']) if rng.random() < 0.9 else None)
+                f = b.steps[-1].split(',')
+                used.append((bytes.fromhex(f[3]).decode('ascii') if f[3] != '-' else '', f[4]))
+            elif r < 0.55:
+                i = rng.choice([q[0] for q in pool] + idx_pool)
+                n = b.add(t, 'cpriv', i, rng.randrange(2) if i < H31 else 0)
+            elif r < 0.65:
+                n = b.add(t, 'cpub', rng.choice([q[0] for q in pool] + idx_pool + [-1, 1 << 32]))
+            elif r < 0.77:
+                n = b.add(t, 'pub')
+            elif r < 0.85:
+                n = b.pm(t, account=rng.choice([0, 0, 1, 7]), purpose=rng.choice(['-', '-', 44, 84]), multi=rng.choice(['-', '-', 0, 1]),
+                         wit=rng.choice(['-', '-', 'l', 'p', 's']), as_private=rng.randrange(2))
+            elif r < 0.89:
+                n = b.net(t, rng.choice(list(NETS)))
+            elif r < 0.97:
+                if FIX8 and rng.random() < 0.3:
+                    n = b.add(t, 'exp', 'wifidx', rng.choice(idx_pool))
+                else:
+                    n = b.add(t, 'exp', rng.choice(EXPORTS))
+            else:
+                n = b.add(rng.randrange(len(b.steps) + 3), 'pub')        # may name a failed or future step
+            if b.alive(n):
+                live.append(n)
+        emit('sess_random', b)
     return cs
 
 
 def is_trivial(c, out):
-    return out.startswith('ERR') or out == 'BADREQ'
+    return out.startswith('ERR') or out == 'BADREQ' or (c.req.startswith('sess ') and ' R NEW ' not in out)
 
 
 # ---------------------------------------------------------------- property-level verdict on the implementation
+def unhp(h):
+    return bytes.fromhex(h if h != '-' else '').decode('ascii')
+
+
+def meta_of_req(req):
+    """the case description of a request line (replayed cases carry none)"""
+    t = req.split(' ')
+    try:
+        if t[0] == 'derive':
+            return ('derive', t[1], unhp(t[2]))
+        if t[0] == 'split':
+            return ('split', t[1], unhp(t[2]), unhp(t[3]))
+        if t[0] == 'cpub':
+            return ('cpub', t[1], int(t[2]))
+        if t[0] == 'cpriv':
+            return ('cpriv', t[1], int(t[2]), int(t[3]))
+        if t[0] == 'wifidx':
+            return ('wifidx', t[1], t[2] if t[2] == '-' else int(t[2]), int(t[3]))
+    except (ValueError, IndexError):
+        pass
+    return None
+
+
 def expected(c):
     """what BIP32 defines for the request, as answer line; None = not decided here"""
-    m = c.meta
+    m = c.meta or meta_of_req(c.req)
     if m is None:
         return None
     w = not c.req.endswith(' - -')
@@ -512,6 +971,10 @@ def expected(c):
             return 'ERR'
         y = derive(x, p1[0], p1[1])
         return show(derive(y.neuter(), p2[0], p2[1]) if y is not None else None, w)
+    if m[0] == 'wifidx':
+        n, a = m[2], m[3]
+        y = x if n == '-' else XK(x.k, x.K, x.c, x.depth, x.pfp, n)
+        return '%s %d' % (ser_x(y, bool(a) and x.k is not None), x.idx)
     if m[0] == 'cpub':
         i = m[2]
         if i >= H31 or i < 0:
@@ -534,12 +997,15 @@ def prop_check(c, out):
         return 'unexpected answer %r' % out[:120]
     if ' LEAK ' in (' ' + out + ' '):
         return 'public result still holds private fields: %s' % out[:80]
+    if c.req.startswith('sess '):
+        return session_verdict(c.req, out, c.meta[1] if c.meta else False)
     exp = expected(c)
     if exp is None or exp == out:
         return None
-    m = c.meta
+    m = c.meta or meta_of_req(c.req)
     what = {'derive': 'subkey_for_path(%r)' % (m[2],), 'split': 'subkey_for_path(%r).public().subkey_for_path(%r)' % (m[2], m[3] if len(m) > 3 else ''),
-            'cpub': 'child_public(%s)' % (m[2],), 'cpriv': 'child_private(%s, hardened=%s)' % (m[2], m[3] if len(m) > 3 else '')}[m[0]]
+            'cpub': 'child_public(%s)' % (m[2],), 'cpriv': 'child_private(%s, hardened=%s)' % (m[2], m[3] if len(m) > 3 else ''),
+            'wifidx': 'wif(is_private=%s, child_index=%s) and the child number of the key afterwards' % (m[3] if len(m) > 3 else '', m[2])}[m[0]]
     return '%s from %s gives %s, BIP32 defines %s' % (what, m[1][:40], out[:150], exp[:150])
 
 
